@@ -14,6 +14,8 @@ import TFV.Generated.Src.SHADE_update_u_CR
 import TFV.Generated.Src.SHAGA_update_u
 import TFV.Generated.Src.Lehmer_mean_weighted
 import TFV.Generated.Src.Lehmer_mean_plain
+import TFV.Generated.Src.SHAGA_randn
+import Mathlib.Tactic.Linarith
 import Mathlib.Tactic.Ring
 
 namespace TFV.Properties.Src.MemoryUpdate
@@ -125,6 +127,28 @@ theorem C15_src_shaga_update_u_composed (u : Rat) (S df : List Rat) (hl : df.len
   unfold SHAGA_update_u at this ⊢
   simp only [h1, h2] at this ⊢
   exact this
+
+/-- `SHAGA._randn` = the drawn Cauchy value clamped to [0, 1] (`Adapt.randnCR`) -/
+theorem C15_src_shaga_randn (cauchy : Rat → Rat → Nat → Rat) (u scale : Rat) :
+    SHAGA_randn cauchy u scale = some (randnCR (cauchy u scale 0)) := by
+  unfold SHAGA_randn randnCR
+  by_cases h0 : cauchy u scale 0 < 0
+  · simp [h0]
+  · by_cases h1 : cauchy u scale 0 > 1
+    · simp [h0, h1]
+    · simp [h0, h1]
+
+/-- ... hence a drawn CR of SHAGA lies in [0, 1] whatever the Cauchy generator returns -/
+theorem C15_src_shaga_randn_range (cauchy : Rat → Rat → Nat → Rat) (u scale : Rat) :
+    ∃ v, SHAGA_randn cauchy u scale = some v ∧ 0 ≤ v ∧ v ≤ 1 := by
+  refine ⟨_, C15_src_shaga_randn cauchy u scale, ?_⟩
+  unfold randnCR
+  split
+  · exact ⟨le_refl _, by norm_num⟩
+  · split
+    · exact ⟨by norm_num, le_refl _⟩
+    · rename_i h0 h1
+      exact ⟨not_lt.mp h0, not_lt.mp h1⟩
 
 example : Lehmer_mean_weighted [1/2, 1/4] [1, 3] = some (7/20) := by decide +kernel
 
